@@ -8,6 +8,7 @@ import (
 	"encoding/json"
 	"errors"
 	"fmt"
+	"github.com/fxamacker/cbor/v2"
 	"os"
 	"runtime"
 	"runtime/debug"
@@ -38,6 +39,17 @@ func (FailEnc) StoredValue(atree.SlabStorage) (atree.Value, error) { return Fail
 func (FailEnc) ChildStorables() []atree.Storable                   { return nil }
 func (FailEnc) CanCopyNonRefSimple() bool                          { return true }
 func (FailEnc) CopyNonRefSimple() (atree.Storable, error)          { return FailEnc{}, nil }
+
+// FailTI is a type information whose encoding fails after it wrote something (a fault in the caller-supplied type
+// encoder, in the middle of an item).
+type FailTI struct{}
+
+func (FailTI) Encode(enc *cbor.StreamEncoder) error {
+	_ = enc.EncodeTagHead(tagCompTI)
+	return ErrInjected
+}
+func (FailTI) IsComposite() bool    { return false }
+func (FailTI) Copy() atree.TypeInfo { return FailTI{} }
 
 type histResult struct {
 	digest  string
@@ -196,15 +208,31 @@ func parallelCommitPreload(cfg Config, pc *PCase, st *CaseStats) error {
 						if err := e.acquire(r); err != nil {
 							return err
 						}
+						// in every second case the unencodable thing is not an element but the type information of an inlined
+						// child (encoded through the pooled type-id encoder)
+						var bad atree.Value = FailEnc{}
+						if len(pc.Hist)%2 == 0 {
+							child, err := atree.NewArray(e.St, r.Addr, FailTI{})
+							if err != nil {
+								return fmt.Errorf("NewArray failed: %v", err)
+							}
+							if err := child.Append(U64(1)); err != nil {
+								return fmt.Errorf("Append failed: %v", err)
+							}
+							bad = child
+						}
 						if !r.IsMap && w%2 == 1 {
-							if err := r.HA.Append(FailEnc{}); err != nil {
+							if err := r.HA.Append(bad); err != nil {
 								return fmt.Errorf("Append failed: %v", err)
 							}
 							break
 						}
 						if r.IsMap && r.Dig == nil && w%2 == 0 {
 							for k := uint64(0); k < 4; k++ { // several keys: at least one is not the first of its slab
-								if _, err := r.HM.Set(e.CB.Compare, e.CB.HashInput, U64(5550000+k), FailEnc{}); err != nil {
+								if k > 0 {
+									bad = FailEnc{}
+								}
+								if _, err := r.HM.Set(e.CB.Compare, e.CB.HashInput, U64(5550000+k), bad); err != nil {
 									return fmt.Errorf("Set failed: %v", err)
 								}
 							}
